@@ -329,8 +329,9 @@ class Sym:
             return None
         if isinstance(st, (ast.With, ast.AsyncWith)):
             for item in st.items:
+                cm = self.ev(item.context_expr, env, fr)
                 if item.optional_vars is not None:
-                    self._assign(item.optional_vars, ('call', 'with', (self.ev(item.context_expr, env, fr),)), env, fr, None)
+                    self._assign(item.optional_vars, ('call', 'with', (cm,)), env, fr, None)
             if not self._has_escape(st.body):
                 self._exec(st.body, env, fr)
                 return None
